@@ -16,7 +16,8 @@ func (r *recT) Helper()                           {}
 
 var errBoom = errors.New("boom")
 
-// scripted marshaler (value receiver): mode 0 right data, 1 other data, 2 error, 3 error together with data, 4 panic
+// scripted marshaler (value receiver): mode 0 right data, 1 other data, 2 error, 3 error together with data, 4 panic,
+// 5 a nil slice and no error (right data exactly when the empty text is expected)
 type scriptM struct {
 	mode int
 	data string
@@ -30,6 +31,8 @@ func (s scriptM) MarshalText() ([]byte, error) {
 		return nil, errBoom
 	case 3:
 		return []byte(s.data), errBoom
+	case 5:
+		return nil, nil
 	}
 	panic("scripted panic")
 }
@@ -103,7 +106,7 @@ func knownErrorMatch(pred, mode, before, after int, applicable bool) {
 
 // predHolds: does the predicate accept the error produced by a scripted call in the given mode?
 func predHolds(kind int, mode int) bool {
-	hasErr := mode >= 2
+	hasErr := mode >= 2 && mode <= 4
 	switch kind {
 	case 1:
 		return hasErr
@@ -141,13 +144,16 @@ func hookU(kind int) func(index int, c *CaseText[scriptU]) error {
 
 // one case through MarshalText: failure reported iff the independent per-case oracle says so
 //
-//verif:harness C20 quick mode=0..4 pred=0..8 cons=0..2 hooks=0..15
+//verif:harness C20 quick mode=0..5 pred=0..8 cons=0..2 hooks=0..15
 func H_C20_marshalText(mode int, pred int, cons int, hooks int) {
 	if pred >= 2 && mode == 4 {
 		return // the text of a panic error contains a stack trace: only AnyError is meaningful there
 	}
 	before, after := hooks%4, hooks/4
 	expected := vStr("expected", 2)
+	if mode == 5 {
+		expected = "" // a nil result is the right data exactly for the empty text
+	}
 	actual := expected
 	if mode == 1 {
 		actual = vStr("actual", 2)
@@ -179,7 +185,7 @@ func H_C20_marshalText(mode int, pred int, cons int, hooks int) {
 				want = true // data alongside an expected error
 			}
 		default:
-			want = mode >= 1 // wrong data, any error, panic
+			want = mode >= 1 && mode != 5 // wrong data, any error, panic
 		}
 	}
 	vAssert("no-panic-escapes", !escaped)
